@@ -19,6 +19,150 @@ use num_complex::Complex64;
 
 type V = Vec<Complex64>;
 
+thread_local! {
+    /// when set, the routes are exercised on (clones of) this gate object instead of a freshly parsed one: the
+    /// gate was built from reference / FFI-pointer parameters whose cells have been overwritten since (the
+    /// request line carries the term at the CURRENT values, so model and reference are evaluated there)
+    static LIVE: std::cell::RefCell<Option<gate::Dyn>> = std::cell::RefCell::new(None);
+}
+
+fn mk(term: &str) -> gate::Dyn
+{
+    LIVE.with(|l| match &*l.borrow() { Some(g) => g.clone(), None => gate::parse_str(term) })
+}
+
+/// the cells behind the reference parameters of a live gate, with the values they will finally hold
+struct Cells
+{
+    rcs: Vec<(std::rc::Rc<std::cell::RefCell<f64>>, f64)>,
+    ptrs: Vec<(*mut f64, f64)>,
+    /// kinds to use for the successive parameters (0 direct, 1 Rc<RefCell>, 2 FFI pointer), then random
+    kinds: Vec<u32>,
+    used: usize
+}
+
+impl Cells
+{
+    fn param(&mut self, fin: f64, rng: &mut SplitMix64) -> q1tsim::gates::Parameter
+    {
+        let kind = if self.used < self.kinds.len() { self.kinds[self.used] } else { rng.below(3) as u32 };
+        self.used += 1;
+        match kind
+        {
+            0 => q1tsim::gates::Parameter::Direct(fin),
+            1 => { let c = std::rc::Rc::new(std::cell::RefCell::new(0.123)); self.rcs.push((c.clone(), fin)); q1tsim::gates::Parameter::from_refcell(&c, "p") },
+            _ => { let q = Box::into_raw(Box::new(-0.456f64)); self.ptrs.push((q, fin)); q1tsim::gates::Parameter::FFIRef(q as *const f64) }
+        }
+    }
+    fn overwrite(&self)
+    {
+        for (c, v) in self.rcs.iter() { *c.borrow_mut() = *v; }
+        for (q, v) in self.ptrs.iter() { unsafe { **q = *v; } }
+    }
+    fn free(self) { for (q, _) in self.ptrs { unsafe { drop(Box::from_raw(q)); } } }
+}
+
+/// `gate::parse` with every parameter built by `Cells::param` (decoy values in the cells at construction)
+fn live_parse<'a, It: Iterator<Item = &'a str>>(it: &mut It, cs: &mut Cells, rng: &mut SplitMix64) -> gate::Dyn
+{
+    use q1tsim::gates::*;
+    use gate::Dyn;
+    let head = it.next().expect("gate name");
+    macro_rules! b { ($e:expr) => { Dyn::Full(Box::new($e)) } }
+    let f = |it: &mut It, cs: &mut Cells, rng: &mut SplitMix64| cs.param(gate::hex_f64(it.next().expect("param")), rng);
+    fn nat<'a, It: Iterator<Item = &'a str>>(it: &mut It) -> usize { it.next().expect("nat").parse().expect("nat") }
+    fn ops<'a, It: Iterator<Item = &'a str>>(it: &mut It, comp: &mut Composite, cs: &mut Cells, rng: &mut SplitMix64)
+    {
+        let k = nat(it);
+        for _ in 0..k
+        {
+            let g = live_parse(it, cs, rng);
+            let m = nat(it);
+            let bits: Vec<usize> = (0..m).map(|_| nat(it)).collect();
+            comp.add_gate(g, &bits);
+        }
+    }
+    match head
+    {
+        "RX" => b!(RX::new(f(it, cs, rng))), "RY" => b!(RY::new(f(it, cs, rng))), "RZ" => b!(RZ::new(f(it, cs, rng))),
+        "U1" => b!(U1::new(f(it, cs, rng))),
+        "U2" => { let (p, l) = (f(it, cs, rng), f(it, cs, rng)); b!(U2::new(p, l)) },
+        "U3" => { let (t, p, l) = (f(it, cs, rng), f(it, cs, rng), f(it, cs, rng)); b!(U3::new(t, p, l)) },
+        "CRX" => b!(CRX::new(f(it, cs, rng))), "CRY" => b!(CRY::new(f(it, cs, rng))), "CRZ" => b!(CRZ::new(f(it, cs, rng))),
+        "CU1" => b!(CU1::new(f(it, cs, rng))),
+        // CU2 and CU3 only take plain numbers
+        "CU2" => { let (p, l) = (gate::hex_f64(it.next().unwrap()), gate::hex_f64(it.next().unwrap())); b!(CU2::new(p, l)) },
+        "CU3" => { let (t, p, l) = (gate::hex_f64(it.next().unwrap()), gate::hex_f64(it.next().unwrap()), gate::hex_f64(it.next().unwrap())); b!(CU3::new(t, p, l)) },
+        "CCRX" => b!(CCRX::new(f(it, cs, rng))), "CCRY" => b!(CCRY::new(f(it, cs, rng))), "CCRZ" => b!(CCRZ::new(f(it, cs, rng))),
+        "C" => { let g = live_parse(it, cs, rng); Dyn::Plain(std::rc::Rc::new(C::new(g))) },
+        "Kron" => { let g0 = live_parse(it, cs, rng); let g1 = live_parse(it, cs, rng); b!(Kron::new(g0, g1)) },
+        "Comp" => {
+            let name = it.next().expect("name").to_string();
+            let nb = nat(it);
+            let mut comp = Composite::new(&name, nb);
+            ops(it, &mut comp, cs, rng);
+            b!(comp)
+        },
+        "Loop" => {
+            let label = it.next().expect("label").to_string();
+            let iters = nat(it);
+            let name = it.next().expect("name").to_string();
+            let nb = nat(it);
+            let mut comp = Composite::new(&name, nb);
+            ops(it, &mut comp, cs, rng);
+            b!(Loop::new(&label, iters, comp))
+        },
+        other => gate::parse_str(other)     // constant gates
+    }
+}
+
+/// one call of EVERY route while the cells still hold the decoys (so that anything cached is cached)
+fn prime(g: &gate::Dyn)
+{
+    let g = g.clone();
+    let _ = catch(std::panic::AssertUnwindSafe(move || {
+        let k = g.nr_affected_bits();
+        let dim = 1usize << k;
+        let bits: Vec<usize> = (0..k).collect();
+        let _ = g.matrix();
+        let mut a = ndarray::Array1::from_vec(basis(dim, dim - 1));
+        g.apply(&mut a);
+        g.apply_slice(a.view_mut());
+        q1tsim::gates::apply_gate_slice(a.view_mut(), &g, &bits, k);
+        let mut m = ndarray::Array2::from_shape_vec((dim, dim), identity(dim)).unwrap();
+        g.apply_mat(&mut m);
+        g.apply_mat_slice(m.view_mut());
+        q1tsim::gates::apply_gate_mat_slice(m.view_mut(), &g, &bits, k);
+        let mut st = VectorState::new(k, 3);
+        let _ = st.apply_gate(&g, &bits);
+        let _ = st.apply_conditional_gate(&[true, false, true], &g, &bits);
+    }));
+}
+
+/// number of parameters of a term (hex tokens of 16 digits)
+fn nr_params(term: &str) -> usize
+{
+    term.split_whitespace().filter(|t| t.len() == 16 && t.chars().all(|c| c.is_ascii_hexdigit())).count()
+}
+
+/// the live stream for one term (text at the FINAL values) and one pattern of parameter kinds
+fn live(out: &mut Out, term: &str, k: usize, kinds: Vec<u32>, nmax: usize, rng: &mut SplitMix64)
+{
+    let mut cs = Cells { rcs: vec![], ptrs: vec![], kinds, used: 0 };
+    let g = live_parse(&mut term.split_whitespace(), &mut cs, rng);
+    prime(&g);
+    cs.overwrite();
+    LIVE.with(|l| *l.borrow_mut() = Some(g));
+    r_matrix(out, term);
+    leading(out, term, k, false, rng);
+    for n in k..=nmax.min(k + 1)
+    {
+        for bits in sample(tuples(n, k), 2, rng) { placed(out, term, n, &bits, 2, rng); }
+    }
+    LIVE.with(|l| *l.borrow_mut() = None);
+    cs.free();
+}
+
 fn show(v: &[Complex64]) -> String
 {
     let mut s = String::with_capacity(v.len() * 34);
@@ -68,7 +212,7 @@ fn identity(dim: usize) -> V
 fn r_matrix(out: &mut Out, term: &str)
 {
     let t = term.to_string();
-    let r = catch(move || { let m = gate::parse_str(&t).matrix(); (m.rows(), m.iter().cloned().collect::<V>()) });
+    let r = catch(move || { let m = mk(&t).matrix(); (m.rows(), m.iter().cloned().collect::<V>()) });
     out.case(&format!("matrix | {} |", term), &match r { Some((n, v)) => format!("ok {} {}", n, show(&v)), None => "panic".into() });
 }
 
@@ -77,7 +221,7 @@ fn r_vec(out: &mut Out, kind: &'static str, term: &str, v: &V)
 {
     let (t, v2) = (term.to_string(), v.clone());
     let r = catch(move || {
-        let g = gate::parse_str(&t);
+        let g = mk(&t);
         let mut a = ndarray::Array1::from_vec(v2);
         if kind == "apply" { g.apply(&mut a); } else { g.apply_slice(a.view_mut()); }
         a.to_vec()
@@ -90,7 +234,7 @@ fn r_mat(out: &mut Out, kind: &'static str, term: &str, rows: usize, cols: usize
 {
     let (t, d2) = (term.to_string(), data.clone());
     let r = catch(move || {
-        let g = gate::parse_str(&t);
+        let g = mk(&t);
         let mut a = ndarray::Array2::from_shape_vec((rows, cols), d2).unwrap();
         if kind == "applymat" { g.apply_mat(&mut a); } else { g.apply_mat_slice(a.view_mut()); }
         a.iter().cloned().collect::<V>()
@@ -102,7 +246,7 @@ fn r_gslice(out: &mut Out, term: &str, n: usize, bits: &[usize], v: &V)
 {
     let (t, v2, b2) = (term.to_string(), v.clone(), bits.to_vec());
     let r = catch(move || {
-        let g = gate::parse_str(&t);
+        let g = mk(&t);
         let mut a = ndarray::Array1::from_vec(v2);
         q1tsim::gates::apply_gate_slice(a.view_mut(), &g, &b2, n);
         a.to_vec()
@@ -114,7 +258,7 @@ fn r_gmatslice(out: &mut Out, term: &str, n: usize, bits: &[usize], rows: usize,
 {
     let (t, d2, b2) = (term.to_string(), data.clone(), bits.to_vec());
     let r = catch(move || {
-        let g = gate::parse_str(&t);
+        let g = mk(&t);
         let mut a = ndarray::Array2::from_shape_vec((rows, cols), d2).unwrap();
         q1tsim::gates::apply_gate_mat_slice(a.view_mut(), &g, &b2, n);
         a.iter().cloned().collect::<V>()
@@ -152,7 +296,7 @@ fn r_vsapply(out: &mut Out, term: &str, n: usize, bits: &[usize], rng: &mut Spli
     let (_, s0) = snapshot(&st);
     let (t, b2) = (term.to_string(), bits.to_vec());
     let r = catch(std::panic::AssertUnwindSafe(move || {
-        let g = gate::parse_str(&t);
+        let g = mk(&t);
         match st.apply_gate(&g, &b2)
         {
             Ok(()) => { let (_, s1) = snapshot(&st); format!("ok {}", show(&s1[0])) },
@@ -173,7 +317,7 @@ fn r_vscond(out: &mut Out, term: &str, n: usize, bits: &[usize], shots: usize, m
     let (c0, s0) = snapshot(&st);
     let (t, b2, m2) = (term.to_string(), bits.to_vec(), mask.to_vec());
     let r = catch(std::panic::AssertUnwindSafe(move || {
-        let g = gate::parse_str(&t);
+        let g = mk(&t);
         match st.apply_conditional_gate(&m2, &g, &b2)
         {
             Ok(()) => { let (c1, s1) = snapshot(&st); format!("ok {} | {}", join(&c1), show(&s1.concat())) },
@@ -396,6 +540,48 @@ fn main()
                 let mut tups = if th && n <= 5 { all } else { sample(all, 10, &mut rng) };
                 for t in sample(tricky, if th { 24 } else { 4 }, &mut rng) { if !tups.contains(&t) { tups.push(t); } }
                 for bits in tups { placed(&mut out, &term, n, &bits, 3, &mut rng); }
+            }
+        }
+    }
+
+    // reference-valued parameters are live on EVERY route: each parametrised gate (and combinators containing
+    // them) is built with every pattern of direct / Rc<RefCell> / FFI-pointer parameters while the cells hold
+    // decoys, every route is called once, the cells are overwritten, and every route is exercised again; the
+    // request carries the term at the new values
+    {
+        let mut terms: Vec<(String, usize)> = vec![];
+        for round in 0..(if th { 3 } else { 1 })
+        {
+            for (t, k) in gate::registry(&mut rng) { if t.contains(' ') && !t.starts_with("CU2") && !t.starts_with("CU3") { terms.push((t, k)); } }
+            let a = |rng: &mut SplitMix64| fbits(gate::gen_angle(rng));
+            terms.push((format!("C U3 {} {} {}", a(&mut rng), a(&mut rng), a(&mut rng)), 2));
+            terms.push((format!("C C U2 {} {}", a(&mut rng), a(&mut rng)), 3));
+            terms.push((format!("C U1 {}", a(&mut rng)), 2));
+            terms.push((format!("Kron U3 {} {} {} H", a(&mut rng), a(&mut rng), a(&mut rng)), 2));
+            terms.push((format!("Kron CU1 {} RX {}", a(&mut rng), a(&mut rng)), 3));
+            terms.push((format!("Kron U1 {} U1 {}", a(&mut rng), a(&mut rng)), 2));
+            terms.push((format!("Comp g 2 3 U1 {} 1 0 CRZ {} 2 1 0 RX {} 1 1", a(&mut rng), a(&mut rng), a(&mut rng)), 2));
+            terms.push((format!("Comp g 3 3 CU1 {} 2 2 0 H 1 1 C U1 {} 2 1 2", a(&mut rng), a(&mut rng)), 3));
+            terms.push((format!("Loop l 2 b 2 2 CU1 {} 2 0 1 U1 {} 1 1", a(&mut rng), a(&mut rng)), 2));
+            terms.push((format!("Loop l 3 b 1 2 U1 {} 1 0 RY {} 1 0", a(&mut rng), a(&mut rng)), 1));
+            terms.push((format!("Comp o 2 2 Comp i 1 1 U1 {} 1 0 1 1 Kron RZ {} U1 {} 2 1 0", a(&mut rng), a(&mut rng), a(&mut rng)), 2));
+            let _ = round;
+        }
+        for i in 0..(if th { 60 } else { 12 })
+        {
+            let k = 1 + (i % 3);
+            let t = gate::gen_term(k, 2, &mut rng);
+            if nr_params(&t) > 0 { terms.push((t, k)); }
+        }
+        for (term, k) in terms
+        {
+            let np = nr_params(&term);
+            let all: Vec<u32> = (1..3u32.pow(np.min(3) as u32)).collect();
+            let masks = if th { all } else { sample(all, 4, &mut rng) };
+            for mask in masks
+            {
+                let kinds: Vec<u32> = (0..np.min(3)).map(|j| (mask / 3u32.pow(j as u32)) % 3).collect();
+                live(&mut out, &term, k, kinds, nmax_all, &mut rng);
             }
         }
     }
